@@ -430,7 +430,7 @@ def run(ck):
     ck.lean_obligations(generated=["RegArith", "RegProc"])   # integer arithmetic of registers.py, re-translated from the AST on every run
     drv = ck.driver()
     rng = ck.rng
-    ck.assume("config processors other than SHIFT_RIGHT, YAML comment rendering and HTML export are not modelled",
+    ck.assume("the processor table is generated (RegProc); a processor class the model's Field.shift cannot represent breaks `processors_covered`; YAML comment rendering, HTML export and fuse_registers.py are not modelled",
               "layouts are contiguous (offsets back to back) in the correspondence stream; sparse layouts go through C12/C16",
               "configuration path: register and bit-field names are unique (duplicate names are C12 findings), configuration values are ints or strings "
               "(None / float / bool are not generated), sub-registers of a group carry no bit-fields, registers with bit-fields have no alternative widths "
